@@ -396,6 +396,12 @@ func structsEqual(x, y any) (err error) {
 		ytf := yrt.Field(i)
 		yvf := yrv.Field(i)
 
+		if !xtf.IsExported() && !ytf.IsExported() {
+			// unexported fields cannot be read through
+			// reflection; they are not compared
+			continue
+		}
+
 		xn := xtf.Name
 		yn := ytf.Name
 
